@@ -1,6 +1,15 @@
 #!/bin/bash
-# seedsum.sh <patch> Cxx...: one summary line per check for a seeded change
-PATCH=$1; shift
-./seedtest.sh $PATCH "$@" 2>&1 | awk '
-/VIOLATION/ { split($1,a,"[][]"); p=a[2]; if ($0 ~ /no-failing-input-found/) nf[p]++; else wf[p]++ }
-/ quick: / { split($1,a,"[][]"); p=a[2]; printf "%s: with-input=%d no-input=%d | %s\n", p, wf[p], nf[p], substr($0, index($0,$2)) }'
+# seedsum.sh <patch> Cxx...: apply a seeded change to /repo, run the quick checks, undo it; one summary
+# line per check (violations with / without a concrete failing input).  Evidence is saved and restored.
+PATCH=$(realpath $1); shift
+cd /verif
+SAVE=$(mktemp -d /var/tmp/evidence-save.XXXXXX); cp -a evidence/. $SAVE/
+git -C /repo apply $PATCH || { rm -rf $SAVE; exit 2; }
+for p in "$@"; do
+  ./check $p --tier quick > /var/tmp/seedsum.$$ 2>&1
+  wi=$(grep -c '^VIOLATION' /var/tmp/seedsum.$$); ni=$(grep -c '^VIOLATION.*no-failing-input-found' /var/tmp/seedsum.$$)
+  echo "$p: with-input=$((wi-ni)) no-input=$ni | $(grep ' quick: ' /var/tmp/seedsum.$$)"
+done
+rm -f /var/tmp/seedsum.$$
+git -C /repo checkout -- . ; git -C /repo status --short | head -3
+rm -rf evidence; mkdir evidence; cp -a $SAVE/. evidence/; rm -rf $SAVE
